@@ -96,11 +96,15 @@ def _expect(op):
 
 def nontrivial(op, mres, tag):
     f = op.split()
+    if f[1] == "keylookup":
+        return True
     return f[1] == "samekey" or mres.startswith("ok") or mres == "err mismatch"
 
 
 def branch(op, mres, tag):
     f = op.split()
+    if f[1] == "keylookup":
+        return "keylookup:" + mres
     r = mres.split(" ")
     head = f[1] + (":" + f[2] if f[1] == "e2e" else "")
     if r[0] != "ok":
@@ -123,6 +127,12 @@ def predicate(op, il, mres, tag):
     """the property itself, on the implementation's behaviour"""
     f = op.split()
     kind = f[1]
+    if kind == "keylookup":
+        if il.startswith("ok p=") and il.split()[1] not in ("p=1", "p=!"):
+            return ("Relic.Props.C07.mismatch_is_error (key lookup; Relic.Props.C15.pinned_key_never_stale)", "key 1 or an error",
+                    "a lookup pinned to key id 1 resolved to another key (%s): the signature would be made with a key other than the one "
+                    "whose certificate is embedded" % il)
+        return None
     if kind == "samekey":
         if il == "ok true":
             a, b = f[2][4:], f[3][4:]
@@ -176,3 +186,25 @@ def predicate(op, il, mres, tag):
 
 def matches_known(k, op, il, mres, tag):
     return False
+
+
+
+# ---- T-gen: the lock span of tokencache.(*Cache).GetKey (tools/extractlocks -> Relic/Generated/Locks.lean); the obligation
+# heldThroughout (first statement takes c.mu, second defers its release, no other lock operation in the body) is what lets
+# one call be one atomic step of the cache model, so that pinned_key_never_stale covers overlapping lookups
+def generate(ctx):
+    import os
+    import runner as _r
+    tool = _r.build_tool("extractlocks")
+    gen = os.path.join(_r.LEAN, "Relic", "Generated", "Locks.lean")
+    tmp = gen + ".tmp." + str(os.getpid())
+    r = _r.sh([tool, _r.REPO, tmp])
+    if r.returncode != 0 or not os.path.exists(tmp):
+        raise _r.Broken("extractlocks failed on token/tokencache/cache.go", r.stdout[-2000:])
+    new = open(tmp).read()
+    old = open(gen).read() if os.path.exists(gen) else None
+    if new != old:
+        os.replace(tmp, gen)
+    else:
+        os.remove(tmp)
+    return ["Relic.Props.C07.key_lookup_atomic_generated"]
